@@ -123,6 +123,16 @@ func c07Gen(r *zsim.Run) c07Scenario {
 		for i := range sc.items {
 			sc.items[i].pre, sc.items[i].post, sc.items[i].act = 0, 0, 0
 		}
+	} else if o.Intn(12) == 0 && len(sc.items) > 0 {
+		// two callbacks panic in the same call and nothing takes time: the generator after its last item and one
+		// mapper - only one of them can be recorded, and whichever was must reach the caller
+		sc.ctxKind, sc.genSleep, sc.redMode = 0, 0, 0
+		sc.genPanic = len(sc.items)
+		for i := range sc.items {
+			sc.items[i].pre, sc.items[i].post, sc.items[i].act = 0, 0, 0
+		}
+		it := &sc.items[o.Intn(len(sc.items))]
+		it.act, it.actAfter = actPanic, 0
 	}
 	return sc
 }
